@@ -143,23 +143,38 @@ macro_rules! ctr_resume {
                 assert!(st[j] == want[j], "exported CTR state is not the next counter block");
                 j += 1;
             }
+            // uninterrupted: ONE call of N blocks
             let data: [u8; N * B] = kani::any();
             let mut a = data;
-            let mut b = data;
             core.apply_keystream_blocks(blocks_mut::<$bs>(&mut a));
-            let mut fresh = ctr::CtrCore::<_, ctr::flavors::$flavor>::inner_iv_init(c.clone(), &st);
-            fresh.apply_keystream_blocks(blocks_mut::<$bs>(&mut b));
+            let s_end = core.iv_state();
+            // interrupted after k blocks (k symbolic, case split): export, fresh instance, the rest
+            let k: usize = kani::any();
+            kani::assume(k <= N);
+            let mut b = data;
+            let mut s2 = [0u8; B];
+            split_on!(k, 0, N, k_ => {
+                let mut c1 = ctr::CtrCore::<_, ctr::flavors::$flavor>::inner_iv_init(c.clone(), blk::<$bs>(&iv));
+                c1.set_block_pos(pos);
+                let (p1, p2) = blocks_mut::<$bs>(&mut b).split_at_mut(k_);
+                c1.apply_keystream_blocks(p1);
+                let st_k = c1.iv_state();
+                let mut fresh = ctr::CtrCore::<_, ctr::flavors::$flavor>::inner_iv_init(c.clone(), &st_k);
+                fresh.apply_keystream_blocks(p2);
+                s2.copy_from_slice(&fresh.iv_state());
+            });
             let mut i = 0;
             while i < N * B {
                 assert!(a[i] == b[i], "fresh CTR instance from the exported state does not continue the stream");
                 i += 1;
             }
-            let (s1, s2) = (core.iv_state(), fresh.iv_state());
             let mut j = 0;
             while j < B {
-                assert!(s1[j] == s2[j]);
+                assert!(s_end[j] == s2[j], "final exported state differs between interrupted and uninterrupted run");
                 j += 1;
             }
+            kani::cover!(k == 1);
+            kani::cover!(k == N);
             kani::cover!(true);
         }
     };
@@ -179,18 +194,7 @@ macro_rules! belt_resume {
             let c = Uf::<U16, $par>::with_key(kani::any());
             let mut core = belt_ctr::BeltCtrCore::inner_iv_init(c.clone(), blk::<U16>(&iv));
             core.set_block_pos(pos);
-            let st = core.iv_state();
-            let data: [u8; N * B] = kani::any();
-            let mut a = data;
-            let mut b = data;
-            core.apply_keystream_blocks(blocks_mut::<U16>(&mut a));
-            let mut fresh = belt_ctr::BeltCtrCore::inner_iv_init(c.clone(), &st);
-            fresh.apply_keystream_blocks(blocks_mut::<U16>(&mut b));
-            let mut i = 0;
-            while i < N * B {
-                assert!(a[i] == b[i], "fresh BelT-CTR instance from the exported state does not continue the stream");
-                i += 1;
-            }
+            let _ = core.iv_state();
             // at position 0 the exported state is the IV itself
             let core0 = belt_ctr::BeltCtrCore::inner_iv_init(c.clone(), blk::<U16>(&iv));
             let st0 = core0.iv_state();
@@ -199,6 +203,28 @@ macro_rules! belt_resume {
                 assert!(st0[j] == iv[j], "BelT-CTR state at position 0 is not the IV");
                 j += 1;
             }
+            let data: [u8; N * B] = kani::any();
+            let mut a = data;
+            core.apply_keystream_blocks(blocks_mut::<U16>(&mut a));
+            let k: usize = kani::any();
+            kani::assume(k <= N);
+            let mut b = data;
+            split_on!(k, 0, N, k_ => {
+                let mut c1 = belt_ctr::BeltCtrCore::inner_iv_init(c.clone(), blk::<U16>(&iv));
+                c1.set_block_pos(pos);
+                let (p1, p2) = blocks_mut::<U16>(&mut b).split_at_mut(k_);
+                c1.apply_keystream_blocks(p1);
+                let st_k = c1.iv_state();
+                let mut fresh = belt_ctr::BeltCtrCore::inner_iv_init(c.clone(), &st_k);
+                fresh.apply_keystream_blocks(p2);
+            });
+            let mut i = 0;
+            while i < N * B {
+                assert!(a[i] == b[i], "fresh BelT-CTR instance from the exported state does not continue the stream");
+                i += 1;
+            }
+            kani::cover!(k == 1);
+            kani::cover!(k == N);
             kani::cover!(true);
         }
     };
@@ -266,9 +292,9 @@ resume_case!(cfb_dec_b2_w2_n3, 48, cfb_mode::Decryptor, dec, false, K_CBC, U2, 2
 resume_case!(cfb8_enc_b2_n4, 48, cfb8::Encryptor, enc, true, K_CFB8, U2, 2, U2, 2, U1, 4, U1, 1);
 resume_case!(cfb8_dec_b2_n4, 48, cfb8::Decryptor, dec, false, K_CFB8, U2, 2, U2, 2, U1, 4, U1, 1);
 resume_case!(ofb_enc_b2_w2_n3, 48, ofb::OfbCore, enc, true, K_OFB, U2, 2, U2, 2, U2, 3, U2, 2);
-ctr_resume!(ctr32be_b8_w2_n2, 64, Ctr32BE, spec::CTR32BE, u32, U8, 8, U2, 2);
+ctr_resume!(ctr32be_b8_w2_n3, 64, Ctr32BE, spec::CTR32BE, u32, U8, 8, U2, 3);
 ctr_resume!(ctr64le_b8_w2_n3, 64, Ctr64LE, spec::CTR64LE, u64, U8, 8, U2, 3);
-ctr_resume!(ctr128be_b16_w2_n3, 80, Ctr128BE, spec::CTR128BE, u128, U16, 16, U2, 3);
+ctr_resume!(t_ctr128be_b16_w2_n3, 80, Ctr128BE, spec::CTR128BE, u128, U16, 16, U2, 3);
 belt_resume!(belt_w2_n3, 80, U2, 3);
 buf_resume!(buf_enc_b2_l5, 48, BufEncryptor, encrypt, U2, 2, 5);
 buf_resume!(buf_dec_b2_l5, 48, BufDecryptor, decrypt, U2, 2, 5);
